@@ -98,6 +98,20 @@ def mem (c : Coll) (x : Nat) : Bool := c.items.contains x
 
 end Coll
 
+/-! ### `AdvancedTag.isTagEqual`: tag name and attributes only -/
+
+/-- `dict.get(key)`: a missing key and a value-less attribute both read as `None` -/
+def pyGet (a : List (Str × Option Str)) (k : Str) : Option Str :=
+  match a with
+  | [] => none
+  | (k', v) :: r => if k' = k then v else pyGet r k
+
+/-- `isTagEqual`: names equal, key *sets* equal, and every key of the left reads the same on both sides -/
+def isTagEqual (n1 : Str) (a1 : List (Str × Option Str)) (n2 : Str) (a2 : List (Str × Option Str)) : Bool :=
+  n1 == n2 &&
+  (a1.all (fun p => (a2.map (·.1)).contains p.1) && a2.all (fun p => (a1.map (·.1)).contains p.1)) &&
+  a1.all (fun p => pyGet a1 p.1 == pyGet a2 p.1)
+
 /-- The universe a collection lives in: a forest of element trees. -/
 abbrev Forest := List UTree
 
